@@ -262,11 +262,16 @@ pub fn refile_line(a: &[u8], b: &[u8], ops: &[crate::svgops::Op]) -> String {
         let r2 = sb.to_file(&qb, &p2).is_ok();
         let f1 = std::fs::read(&p2).unwrap_or_default();
         let want = sb.to_str(&qb);
-        // the same with a fresh renderer for the second write, and a changed colour (same length, other text)
+        // then the same symbol twice by fresh renderers that differ only in the module colour — two documents of the same
+        // length that differ only in their last few dozen bytes (the `fill` of the only path)
+        let mut first = SvgBuilder::default();
+        crate::svgops::apply(&mut first, &ops2);
+        crate::svgops::apply(&mut first, &[crate::svgops::Op::ModuleColor(crate::svgops::ColorArg::Rgb([0x10, 0x20, 0x30]))]);
+        let r3a = first.to_file(&qb, &p2).is_ok();
         let mut fresh = SvgBuilder::default();
         crate::svgops::apply(&mut fresh, &ops2);
-        crate::svgops::apply(&mut fresh, &[crate::svgops::Op::BackgroundColor(crate::svgops::ColorArg::Rgb([0x1a, 0x5f, 0xb4]))]);
-        let r3 = fresh.to_file(&qb, &p2).is_ok();
+        crate::svgops::apply(&mut fresh, &[crate::svgops::Op::ModuleColor(crate::svgops::ColorArg::Rgb([0x1a, 0x5f, 0xb4]))]);
+        let r3 = r3a && fresh.to_file(&qb, &p2).is_ok();
         let f2 = std::fs::read(&p2).unwrap_or_default();
         let want2 = fresh.to_str(&qb);
         if !(r1 && r2 && r3) {
